@@ -617,7 +617,8 @@ def main(argv=None):
                      "refuted_as_required": len(
                          [c for c in canaries if c.status != "unsat"])},
         "checker_cmd": f"./check {pid} --tier {a.tier}",
-        "functions": funcs,
+        "functions": [{k: v for k, v in f.items() if k != "locals_now"}
+                      for f in funcs],
         "functions_under_contract": len(verified_funcs),
         "functions_assumed": [f["function"] for f in funcs
                               if f.get("assumed")],
